@@ -67,9 +67,9 @@ class C04(Prop):
                 fails.append({"msg": "frame %d: an entry was read for a header the file does not hold" % idx})
             if inner in d and (o["prev"] == "~" or unhx(o["prev"].split("@")[0]) != d[inner].rstrip(b"\n") and unhx(o["prev"].split("@")[0]) != d[inner]):
                 fails.append({"msg": "frame %d: reading %r returned %s, the entry holds %r" % (idx, i, o["prev"], d[inner])})
-            if o["added"] != "!" and parse_entries(unhx(o["added"])) != ents + [(inner, v)]:
+            if o["added"] not in ("!", "~") and parse_entries(unhx(o["added"])) != ents + [(inner, v)]:
                 fails.append({"msg": "frame %d: appending did not add exactly one entry at the end" % idx})
-            if inner in d and o["updated"] != "!":
+            if inner in d and o["updated"] not in ("!", "~"):
                 exp = [(a, v if a == inner else b_) for a, b_ in ents]
                 if parse_entries(unhx(o["updated"])) != exp:
                     fails.append({"msg": "frame %d: rewriting %r did not change exactly that entry" % (idx, i)})
